@@ -16,8 +16,8 @@ DESIGN_REF = "DESIGN.md §4 C13, Appendix C.2"
 RULE = ("sess: generated POP3 dialogues (0-8 messages, hostile message sources incl. 70 KB lines, valid/malformed/out-of-range/"
         "overflowing/signed arguments, mixed case and the two non-ASCII runes that upper-case to ASCII, double spaces, LF/CRLF/CRCRLF "
         "line ends, split and pipelined chunks, any order of USER/PASS/APOP, CAPA, QUIT or EOF or unterminated last line, idle timeout, "
-        "read error, write failure, reconnects on the same server) interleaved with deliveries/removals/purges by others and mailbox-cap "
-        "evictions, alternating mem and file store; plus an enumeration of all pairs of transaction commands on a 2-message mailbox and a "
+        "read error, write failure, reconnects on the same server) interleaved with deliveries/removals/purges by others, mailbox-cap evictions and - memory store with maxkb - size-limit evictions caused by deliveries of 90 B .. 140 KB to any mailbox, "
+        " alternating mem and file store; plus an enumeration of all pairs of transaction commands on a 2-message mailbox and a "
         "regression corpus; bytes: raw client byte streams (valid dialogues cut at every byte; garbage with LF/CR/NUL/8-bit/the ToUpper runes over-represented; lines of 5-75 KB) run by Coq's run_stream itself; net: scripted connections (a pause longer than the idle timeout at every byte offset of valid dialogues and at random offsets of dialogues and garbage; endings EOF / silence / read error) run by Coq's run_net; tls: one to three connections to ONE server with STLS configured (or not), real TLS client (proper handshake or plaintext instead of a ClientHello), commands pipelined behind STLS, CAPA before/after, run by Coq's tsessions. distinct = distinct input line; non-trivial = the session logs in and issues at least one further command line.")
 TRUSTED = ["command words are compared after Go's strings.ToUpper: modelled for ASCII plus U+0131/U+017F (the only runes whose upper case is ASCII)",
            "the store abstraction of Model/Pop3.v is proved to be C07's StoreSpec read through abs (pop3_over_storespec, storespec_*: for every cap and size limit of StoreSpec), and StoreSpec is what C07 proves the store models refine (pop3_over_store_models: the memory-store model for every cap and size limit, the file-store model only without a size limit, c_max = 0, and under C07's environment hypothesis file_fresh); what stays modelled rather than proved is the one difference between the back-ends that StoreSpec does not speak about: Source() of a message object whose message has been removed fails on the file store and still succeeds on the mem store (sampled by the correspondence run)"]
